@@ -205,6 +205,15 @@ static std::string hist(Toks& t) {
         else if (k == 'i') { h->increaseHistorySize(); o.s("s1:" + std::to_string(h->getHistorySize())); }
         else if (k == 'c') { h->clear(); o.s("c"); }
         else if (k == 'g') { MatrixXd m = h->getHistoryBuffer(); o.s("g:" + shp(m)); }
+        else if (k == 'M' || k == 'T') {   // move ASSIGNMENT from / into another buffer of state size S2 holding cnt vectors (window w)
+            long S2 = 0, cnt = 0, w = 0;
+            if (std::sscanf(op.c_str() + 1, "%ld_%ld_%ld", &S2, &cnt, &w) != 3) throw vh::BadArgs("histmove");
+            std::unique_ptr<HistoryBuffer> other(new HistoryBuffer(S2));
+            if (w > 0) other->setHistorySize(w);
+            for (long i = 0; i < cnt; ++i) { VectorXd e = fillm(S2, 1); other->addElement(e); }
+            if (k == 'M') { *h = std::move(*other); } else { *other = std::move(*h); h = std::move(other); }
+            o.s("m");
+        }
         else if (k == 'm') { std::unique_ptr<HistoryBuffer> h2(new HistoryBuffer(std::move(*h))); if (a == 0) h = std::move(h2); o.s("m"); }  // m0: continue with the moved-to buffer, m1: with the moved-from one
         else throw vh::BadArgs("histop");
     }
@@ -888,6 +897,120 @@ static std::string eeseq(Toks& t) {
     return o.str();
 }
 
+// ---------------------------------------------------------------- hand-over between objects of DIFFERENT configuration
+// b_handover cls kind A1 A2 B1 B2 N : object A (configuration a) and object B (configuration b) are both used once; then
+//   kind 0: A = std::move(B) (move assignment), kind 1: C(std::move(B)) (move construction), [cls 12-14: 2 copy assignment, 3 copy construction];
+//   the receiving object is then used with B's sizes and must behave as B.  The source is destroyed before the use.
+static std::unique_ptr<XState> mkX(long n) { return std::unique_ptr<XState>(new XState(spd(n, 1.0), spd(n, 0.2), VectorDescription(n))); }
+template <class T> static void useGP(T& p, long n, long K, Out* o) {
+    GaussianMixture prev = mkGM(K, n, 0, false, 0), pred(K, n); p.predict(prev, pred); if (o) outGMshape(*o, pred);
+}
+static std::unique_ptr<XMeas> mkMeas(long sr, long m) {
+    std::unique_ptr<XMeas> x(new XMeas()); x->in_ = vdesc(sr, 0, m, false); x->out_ = vdesc(m, 0, 0, false);
+    x->prows = m; x->irows = m; x->ysize = m; x->R = spd(m, 0.3); return x;
+}
+static std::string handover(Toks& t) {
+    long cls = t.nat(), kind = t.nat(), A1 = t.nat(), A2 = t.nat(), B1 = t.nat(), B2 = t.nat(), N = t.nat(); t.done();
+    Out o; o.s("ok");
+    if (cls == 0) {            // KFPrediction
+        std::unique_ptr<KFPrediction> a(new KFPrediction(mkX(A1))), b(new KFPrediction(mkX(B1)));
+        useGP(*a, A1, 1, nullptr); useGP(*b, B1, 1, nullptr);
+        if (kind == 0) { *a = std::move(*b); b.reset(); useGP(*a, B1, N, &o); } else { KFPrediction c(std::move(*b)); b.reset(); useGP(c, B1, N, &o); }
+    } else if (cls == 1) {     // UKFPrediction (additive)
+        typedef std::unique_ptr<AdditiveStateModel> AP;
+        std::unique_ptr<UKFPrediction> a(new UKFPrediction(AP(mkX(A1)), 1.0, 2.0, 0.0)), b(new UKFPrediction(AP(mkX(B1)), 1.0, 2.0, 0.0));
+        useGP(*a, A1, 1, nullptr); useGP(*b, B1, 1, nullptr);
+        if (kind == 0) { *a = std::move(*b); b.reset(); useGP(*a, B1, N, &o); } else { UKFPrediction c(std::move(*b)); b.reset(); useGP(c, B1, N, &o); }
+    } else if (cls == 2 || cls == 3) {   // GPFPrediction over KFPrediction / DrawParticles over WhiteNoiseAcceleration
+        std::unique_ptr<PFPrediction> a, b;
+        const long na = cls == 2 ? A1 : 2 * A1, nb = cls == 2 ? B1 : 2 * B1;
+        if (cls == 2) { a.reset(new GPFPrediction(std::unique_ptr<GaussianPrediction>(new KFPrediction(mkX(A1))))); b.reset(new GPFPrediction(std::unique_ptr<GaussianPrediction>(new KFPrediction(mkX(B1))))); }
+        else { a.reset(new DrawParticles(std::unique_ptr<StateModel>(new WhiteNoiseAcceleration(wdim(A1), 1.0, 1.0)))); b.reset(new DrawParticles(std::unique_ptr<StateModel>(new WhiteNoiseAcceleration(wdim(B1), 1.0, 1.0)))); }
+        { ParticleSet x(1, na), y(1, na); fillPS(x); a->predict(x, y); } { ParticleSet x(1, nb), y(1, nb); fillPS(x); b->predict(x, y); }
+        ParticleSet prev(N, nb), pred(N, nb); fillPS(prev);
+        if (cls == 2) { GPFPrediction* pa = static_cast<GPFPrediction*>(a.get()); GPFPrediction* pb = static_cast<GPFPrediction*>(b.get());
+            if (kind == 0) { *pa = std::move(*pb); b.reset(); pa->predict(prev, pred); } else { GPFPrediction c(std::move(*pb)); b.reset(); c.predict(prev, pred); } }
+        else { DrawParticles* pa = static_cast<DrawParticles*>(a.get()); DrawParticles* pb = static_cast<DrawParticles*>(b.get());
+            if (kind == 0) { *pa = std::move(*pb); b.reset(); pa->predict(prev, pred); } else { DrawParticles c(std::move(*pb)); b.reset(); c.predict(prev, pred); } }
+        outPS(o, pred);
+    } else if (cls == 4) {     // BootstrapCorrection
+        typedef std::unique_ptr<MeasurementModel> MP; typedef std::unique_ptr<LikelihoodModel> LP;
+        std::unique_ptr<BootstrapCorrection> a(new BootstrapCorrection(MP(mkMeas(A1, A2)), LP(new GaussianLikelihood()))), b(new BootstrapCorrection(MP(mkMeas(B1, B2)), LP(new GaussianLikelihood())));
+        { ParticleSet x(2, A1), y(2, A1); fillPS(x); a->correct(x, y); } { ParticleSet x(3, B1), y(3, B1); fillPS(x); b->correct(x, y); }
+        ParticleSet pred(N, B1), cor(N, B1); fillPS(pred);
+        std::pair<bool, VectorXd> l;
+        if (kind == 0) { *a = std::move(*b); b.reset(); a->correct(pred, cor); l = a->getLikelihood(); } else { BootstrapCorrection c(std::move(*b)); b.reset(); c.correct(pred, cor); l = c.getLikelihood(); }
+        outPS(o, cor); o.n(l.first).n(l.second.size()).n(1);
+    } else if (cls == 5) {     // GPFCorrection
+        struct Mk { static GPFCorrection* go(long d, long hm) {
+            std::unique_ptr<GaussianCorrection> kf(new KFCorrection(std::unique_ptr<LinearMeasurementModel>(new XLin(fillm(hm, 2 * d, 1.0), spd(hm, 0.3), hm))));
+            return new GPFCorrection(std::unique_ptr<LikelihoodModel>(new GaussianLikelihood()), std::move(kf), std::unique_ptr<StateModel>(new WhiteNoiseAcceleration(wdim(d), 1.0, 1.0))); } };
+        std::unique_ptr<GPFCorrection> a(Mk::go(A1, A2)), b(Mk::go(B1, B2));
+        { ParticleSet x(2, 2 * A1), y(2, 2 * A1); fillPS(x); a->correct(x, y); } { ParticleSet x(3, 2 * B1), y(3, 2 * B1); fillPS(x); b->correct(x, y); }
+        ParticleSet pred(N, 2 * B1), cor(N, 2 * B1); fillPS(pred);
+        std::pair<bool, VectorXd> l;
+        if (kind == 0) { *a = std::move(*b); b.reset(); a->correct(pred, cor); l = a->getLikelihood(); } else { GPFCorrection c(std::move(*b)); b.reset(); c.correct(pred, cor); l = c.getLikelihood(); }
+        outPS(o, cor); o.n(l.first).n(l.second.size());
+    } else if (cls == 6) {     // ResamplingWithPrior: grid A1 x 1 / B1 x 1, prior ratio A2/10 / B2/10
+        typedef std::unique_ptr<ParticleSetInitialization> IP;
+        std::unique_ptr<ResamplingWithPrior> a(new ResamplingWithPrior(IP(new InitSurveillanceAreaGrid(10.0, 20.0, A1, 1)), A2 / 10.0, 3)), b(new ResamplingWithPrior(IP(new InitSurveillanceAreaGrid(10.0, 20.0, B1, 1)), B2 / 10.0, 4));
+        ParticleSet cor(N, 4), res(1, 1); fillPS(cor); VectorXi par = VectorXi::Constant(N, -7);
+        if (kind == 0) { *a = std::move(*b); b.reset(); a->resample(cor, res, par); } else { ResamplingWithPrior c(std::move(*b)); b.reset(); c.resample(cor, res, par); }
+        long unwritten = 0, minus1 = 0, bad = 0;
+        for (long i = 0; i < par.size(); ++i) { if (par(i) == -7) ++unwritten; else if (par(i) == -1) ++minus1; else if (par(i) < 0 || par(i) >= N) ++bad; }
+        o.n(res.components).s(shpT(res.state())).s(shpT(res.mean())).s(shpT(res.covariance())).n(res.weight().size()).n(unwritten).n(minus1).n(bad);
+    } else if (cls == 7) {     // LTIStateModel
+        std::unique_ptr<XState> a = mkX(A1), b = mkX(B1);
+        MatrixXd cur = fillm(B1, N), prop = MatrixXd::Constant(B1, N, 77.0);
+        if (kind == 0) { *a = std::move(*b); b.reset(); a->propagate(cur, prop); } else { XState c(std::move(*b)); b.reset(); c.propagate(cur, prop); }
+        o.s(shp(prop)).n(1);
+    } else if (cls == 8) {     // EstimatesExtraction, method N, 3 extractions before and 4 after the hand-over, 4 particles
+        std::unique_ptr<XExtract> a(new XExtract(A1, A2)), b(new XExtract(B1, B2));
+        a->setMethod(emeth(N)); b->setMethod(emeth(N));
+        VectorXd w = VectorXd::Constant(4, -std::log(4.0)); w(3) += 0.125; VectorXd l = VectorXd::Constant(4, 0.5); MatrixXd tp = MatrixXd::Constant(4, 4, 0.25);
+        MatrixXd Pa = fillm(A1 + A2, 4), Pb = fillm(B1 + B2, 4);
+        for (int i = 0; i < 3; ++i) { a->extract(Pa, w, w, l, tp); b->extract(Pb, w, w, l, tp); }
+        XExtract* r = a.get(); std::unique_ptr<XExtract> c;
+        if (kind == 0) { *a = std::move(*b); b.reset(); } else { c.reset(new XExtract(std::move(*b))); b.reset(); r = c.get(); }
+        for (int i = 0; i < 4; ++i) { std::pair<bool, VectorXd> x = r->extract(Pb, w, w, l, tp); o.s(std::to_string(x.first ? 1 : 0) + ":" + std::to_string(x.second.size())); }
+    } else if (cls == 9 || cls == 10 || cls == 11) {   // UKF (additive) / SUKF / KF correction, used once, then move-constructed (the only hand-over they offer)
+        std::unique_ptr<GaussianCorrection> b;
+        if (cls == 9) b.reset(new UKFCorrection(std::unique_ptr<AdditiveMeasurementModel>(mkMeas(B1, B2)), 1.0, 2.0, 0.0));
+        else if (cls == 10) b.reset(new SUKFCorrection(std::unique_ptr<AdditiveMeasurementModel>(mkMeas(B1, B2)), 1.0, 2.0, 0.0, B2, false));
+        else b.reset(new KFCorrection(std::unique_ptr<LinearMeasurementModel>(new XLin(fillm(B2, B1, 1.0), spd(B2, 0.3), B2))));
+        { GaussianMixture x = mkGM(3, B1, 0, false, 0), y(3, B1); b->correct(x, y); }
+        std::unique_ptr<GaussianCorrection> c;
+        if (cls == 9) c.reset(new UKFCorrection(std::move(*static_cast<UKFCorrection*>(b.get()))));
+        else if (cls == 10) c.reset(new SUKFCorrection(std::move(*static_cast<SUKFCorrection*>(b.get()))));
+        else c.reset(new KFCorrection(std::move(*static_cast<KFCorrection*>(b.get()))));
+        b.reset();
+        std::pair<bool, VectorXd> l0 = c->getLikelihood();
+        GaussianMixture pred = mkGM(N, B1, 0, false, 0), corr(N, B1);
+        c->correct(pred, corr);
+        o.n(l0.first).n(l0.second.size()); outCorr(o, corr, c->getLikelihood());
+    } else if (cls == 12 || cls == 13) {   // ParticleSet / GaussianMixture: (K = N + 1, A1 linear, A2 circular) receives (K = N, B1, B2)
+        if (cls == 12) {
+            ParticleSet a(N + 1, A1, A2), b(N, B1, B2), extra(1, B1, B2); fillPS(a); fillPS(b); fillPS(extra);
+            ParticleSet* r = &a; std::unique_ptr<ParticleSet> c;
+            if (kind == 0) a = std::move(b); else if (kind == 2) a = b; else if (kind == 1) { c.reset(new ParticleSet(std::move(b))); r = c.get(); } else { c.reset(new ParticleSet(b)); r = c.get(); }
+            *r += extra; outPS(o, *r);
+        } else {
+            GaussianMixture a(N + 1, A1, A2), b(N, B1, B2); fillGM(a); fillGM(b);
+            GaussianMixture* r = &a; std::unique_ptr<GaussianMixture> c;
+            if (kind == 0) a = std::move(b); else if (kind == 2) a = b; else if (kind == 1) { c.reset(new GaussianMixture(std::move(b))); r = c.get(); } else { c.reset(new GaussianMixture(b)); r = c.get(); }
+            bool ok = r->augmentWithNoise(spd(1, 0.1)); o.n(ok); outGMshape(o, *r);
+        }
+    } else if (cls == 14) {    // Resampling: copy / move construction and assignment
+        Resampling a(1), b(9);
+        ParticleSet cor(N, B1), res(N, B1); fillPS(cor); VectorXi par = VectorXi::Constant(N, -7);
+        if (kind == 0) { a = std::move(b); a.resample(cor, res, par); } else if (kind == 2) { a = b; a.resample(cor, res, par); }
+        else if (kind == 1) { Resampling c(std::move(b)); c.resample(cor, res, par); } else { Resampling c(b); c.resample(cor, res, par); }
+        long unwritten = 0, bad = 0; for (long i = 0; i < par.size(); ++i) { if (par(i) == -7) ++unwritten; else if (par(i) < 0 || par(i) >= N) ++bad; }
+        o.n(res.components).s(shpT(res.state())).n(unwritten).n(bad);
+    } else throw vh::BadArgs("cls");
+    return o.str();
+}
+
 int main() {
     return vh::run([](const std::string& op, Toks& t, std::string& out) {
         if (op == "b_wna_noise") out = wna_noise(t);
@@ -915,6 +1038,7 @@ int main() {
         else if (op == "b_bootseq") out = bootseq(t);
         else if (op == "b_gpfcseq") out = gpfcseq(t);
         else if (op == "b_eeseq") out = eeseq(t);
+        else if (op == "b_handover") out = handover(t);
         else if (op == "b_linprop") out = linprop(t);
         else if (op == "b_kfp") out = kfp(t);
         else if (op == "b_ukfp") out = ukfp(t);
